@@ -195,7 +195,7 @@ def main(argv=None):
     funcs = report["_funcs"]
     if report["_smoke_bad"]:
         broken.append(f"smoke obligations refuted (contradictory requires/axioms): {report['_smoke_bad']}")
-    if not broken and report["deductive"]["obligations"] == 0 and funcs:
+    if not broken and report["deductive"]["obligations"] == 0 and funcs and all(r["status"] == "ok" for r in funcs.values()):
         broken.append("zero obligations generated")
 
     # ---- failed obligations: known finding / witness search / violation / undecided
